@@ -159,13 +159,15 @@ func (s *Sched) point(kind string) {
 	k := 0
 	if strings.HasPrefix(kind, "atomic.") {
 		k = 1
+	} else if kind == "Lock" || kind == "Unlock" || kind == "RLock" || kind == "RUnlock" {
+		k = 3
 	}
 	s.step(g, k)
 }
 
 // step records that g performs a visible operation now.
 func (s *Sched) step(g *G, kind int) {
-	// history entry: goroutine id * 8 + kind (0 other, 1 sync/atomic operation, 2 runtime.Gosched)
+	// history entry: goroutine id * 8 + kind (0 other, 1 sync/atomic operation, 2 runtime.Gosched, 3 mutex operation)
 	s.history = append(s.history, g.id*8+kind)
 	s.progress++
 	s.clock++
